@@ -53,14 +53,12 @@ HWMono == [][HWMonotoneWhileUp]_mcvars
 \* reachability probes for the known-defect tags (violated = reachable; the
 \* counterexample is the stimulus that reproduces the defect on the real code)
 NoTaint_EpochConvention == "epoch-convention" \notin taint
-NoTaint_EpochEmptyStart == "epoch-empty-start" \notin taint
 NoTaint_EpochGap == "epoch-gap" \notin taint
 NoTaint_HWFallback == "hw-fallback" \notin taint
 NoTaint_ExpandLagging == "expand-lagging" \notin taint
 NoTaint_StaleIsrOffset == "stale-isr-offset" \notin taint
 \* ... and of an actual property violation behind each tag
 Bad == ~C02_CommittedSurvives \/ ~C02_NoDivergence
-NoBad_EpochEmptyStart == ~(taint = {"epoch-empty-start"} /\ Bad)
 NoBad_EpochConvention == ~(taint = {"epoch-convention"} /\ Bad)
 NoBad_EpochGap == ~(taint = {"epoch-gap"} /\ Bad)
 NoBad_HWFallback == ~(taint = {"hw-fallback"} /\ Bad)
